@@ -1,11 +1,12 @@
 """C09 — generated client and server agree on every request they can express."""
 from . import respfam
 
-THEOREMS = ["Goag.Prim.parseInt_formatInt", "Goag.Prim.parseBool_formatBool", "Goag.Prim.digitsVal_toDigits", "Goag.Prim.parseInts_formatInts", "Goag.Prim.parseBools_formatBools", "Goag.Prim.formatInt_lexeme", "Goag.Prim.formatInts_lexemes", "Goag.Prim.formatBool_lexeme"]
+THEOREMS = ["Goag.Serve.server_parses_client_scalar", "Goag.Serve.server_parses_client_array", "Goag.Serve.pvalue_clientText",
+            "Goag.Prim.parseInt_formatInt", "Goag.Prim.parseBool_formatBool", "Goag.Prim.digitsVal_toDigits", "Goag.Prim.parseInts_formatInts", "Goag.Prim.parseBools_formatBools", "Goag.Prim.formatInt_lexeme", "Goag.Prim.formatInts_lexemes", "Goag.Prim.formatBool_lexeme"]
 
 
 def check(ctx):
-    return respfam.check(ctx, "C09", ["GoagModel.Props.C09"], THEOREMS,
+    return respfam.check(ctx, "C09", ["GoagModel.Props.C09", "GoagModel.Props.C09b"], THEOREMS,
                          rule="specs = 3-5 operations over 7 path templates x {get,post,put,delete}: typed path / query (scalar and array) / header parameters, JSON or raw request bodies, response sets drawn from {200,201,204,400,404,default} with inline responses, shared component responses (used by several operations and statuses) and alias chains, 0-2 declared headers (required / optional, six types), JSON / raw / empty bodies; optional server base path; generated with --client; per operation 30 (quick) / 100 (thorough) seeded calls through the API's LocalClient with a recording transport; values under the domain restrictions (path values non-empty and '/'-free, set arrays non-empty, no NaN, times as instants); path-item level parameters that operations redefine; one spec in five generated over an earlier revision's package; distinct by (package, wire request)",
                          explanation="the parameter struct given to Client.<Op> (query, header, path values, JSON or raw body) is dumped canonically and compared with what Parse() returns inside the handler; the wire request (method, escaped path, raw query, headers, body) is recorded and judged by kin-openapi's openapi3filter.ValidateRequest against the source spec (route given by the case; path parameter texts are the unescaped segments at the template's variable positions beneath the base path): a complaint is a violation",
                          assumptions=["path values non-empty and free of '/'", "required and set-optional arrays non-empty", "header values without CR/LF", "times compared as instants, floats not NaN",
